@@ -70,6 +70,9 @@ func genBytes(g *simrt.Tape) []byte {
 		n = 500 + g.Draw(40) // around the 512-byte initial receive buffer
 	case 1:
 		n = g.Draw(70000) // beyond it
+		if g.Draw(4) == 0 {
+			n = 70000 + g.Draw(200000) // several growth steps of any buffer-growing scheme
+		}
 	default:
 		n = g.Draw(18)
 	}
